@@ -423,7 +423,7 @@ class RandomChooser(object):
 def explore(scenario, bound, on_run, max_runs=None):
     """Bounded-preemption DFS over the real code.  scenario(chooser) -> finished
     Run (must be deterministic for a given schedule); on_run(run) is called for
-    every execution.  Every schedule with at most `bound` preemptions is
+    every execution (a true result stops the search).  Every schedule with at most `bound` preemptions is
     executed exactly once.  Returns dict(runs=, truncated=)."""
     work = [[] for _ in range(bound + 1)]      # schedule prefixes still to run, by preemptions used
     work[0].append(())
@@ -445,7 +445,9 @@ def explore(scenario, bound, on_run, max_runs=None):
         prefix = work[lvl].pop()
         run = scenario(PrefixChooser(prefix))
         n += 1
-        on_run(run)
+        if on_run(run):           # the caller has seen enough (e.g. many abnormal executions)
+            truncated = True
+            break
         if run.outcome == "nondet":
             continue
         dec = run.decisions
